@@ -272,6 +272,11 @@ def check_call(contract, mod, genv, args, ghosts=None, time_limit=5):
     env = dict(args)
     env.update(ghosts or {})
     g = dict(genv)
+    for modname in ('asn1tools.codecs', 'asn1tools.codecs.per', 'asn1tools.codecs.ber'):
+        try:
+            g.update(vars(importlib.import_module(modname)))     # clauses inherited through refines()
+        except Exception:
+            pass
     g.update(vars(mod))
     g.update(load_spec_env())
     g['forall'] = forall
@@ -315,6 +320,11 @@ def check_call(contract, mod, genv, args, ghosts=None, time_limit=5):
         post['exc'] = exc
         for (ename, when, iff, ens) in contract.raises:
             cls = g.get(ename) or getattr(__import__('builtins'), ename, None)
+            if cls is None:
+                for modname in ('asn1tools.codecs.ber', 'asn1tools.codecs.per', 'asn1tools.codecs'):
+                    cls = getattr(importlib.import_module(modname), ename, None)
+                    if cls is not None:
+                        break
             if cls is None and '.' in ename:
                 cls = resolve_target(importlib.import_module(ename.split('.')[0]), ename.split('.', 1)[1])
             if cls is not None and isinstance(exc, cls):
@@ -528,7 +538,9 @@ def gen_object(cls, rnd, fields_decl, depth=0):
     for c in reversed(cls.__mro__):
         if c.__module__.startswith('asn1tools'):
             for code in FIXUPS.get((class_relpath(c), c.__name__), []):
-                exec(code, dict(vars(sys.modules[c.__module__])), {'self': o, 'rnd': rnd})
+                genv_ = dict(vars(sys.modules[c.__module__]))
+                genv_.update({'self': o, 'rnd': rnd})
+                exec(code, genv_)
     return o
 
 
